@@ -150,18 +150,9 @@ def run(check: core.Check) -> None:
         "loop to its fixpoint (or 16 iterations); non-trivial = at least one fix iteration happened"
     )
     judge(check, cases, "tlc-exhaustive")
-    num = 400 if quick else 8000
-    sim = core.require_ok(
-        core.run_tlc("FixLoopEmit", "FixLoop.sim.cfg", workers=1, simulate=f"num={num}", depth=24,
-                     seed=check.seed + 5, timeout=1800),
-        "FixLoop simulate",
-    )
-    check.add_tlc("simulate:FixLoop.sim.cfg", sim)
-    uniq = {core.canon(c): c for c in core.emitted_json(sim)}
-    check.cov["simulated_cases"] = len(uniq)
-    if len(uniq) < num // 4:
-        raise core.MachineryError(f"simulation produced only {len(uniq)} distinct cases")
-    judge(check, list(uniq.values()), "tlc-simulate")
+    sim_cases = core.simulate_cases("FixLoopEmit", "FixLoop.sim.cfg", 600 if quick else 10000, depth=24,
+                                    seed=check.seed + 5, check=check)
+    judge(check, sim_cases, "tlc-simulate")
 
 
 def replay(check: core.Check, witness: dict) -> None:
